@@ -221,6 +221,8 @@ Fixpoint replay_loop (f : row -> bool) (rs : list row) (gfb gfe : Z) (s : st) : 
         let s := note_call n s in                       (* await self.should_replay(replay_msg) *)
         if negb (f r) then replay_loop f rest gfb (n + 1) s
         else
+          (* numbers missing in the journal before this message are gap filled too *)
+          let gfe := if gfb <? n then n else gfe in
           match (if gfb <? gfe then send_msg (gap_fill_msg gfb gfe) s else Ok s) with
           | Exc e s' => LExc e s'
           | Ok s1 =>
@@ -249,7 +251,9 @@ Definition resend_body (f : row -> bool) (b e0 : Z) (s : st) : st * option exc :
     | LExc x s' => (s', Some x)
     | LOk gfb gfe s2 =>
         if negb (gfe <=? current) then (s2, Some EAssertion) else
-        match (if gfb <? current then send_msg (gap_fill_msg gfb current) s2 else Ok s2) with
+        (* the remainder, only up to the requested EndSeqNo *)
+        let last := Z.min current (e + 1) in
+        match (if gfb <? last then send_msg (gap_fill_msg gfb last) s2 else Ok s2) with
         | Exc x s' => (s', Some x)
         | Ok s3 => (if cstate s3 =? ST_AWAITING then s3 else state_set ST_ACTIVE s3, None)
         end
